@@ -61,6 +61,16 @@ class TheCheck(TreeCheck):
                     ops += ["new 0"] + ["put %s 76" % hexs(x) for x in perm[:split]] + ["walk"]
                     ops += ["put %s 77" % hexs(x) for x in perm[split:]] + ["cursor0", "next"] * k + ["walk"]
         sts.append(Stream("wrap-probes", ops, history=True))
+        # the counter wraps at the END of a complete walk (a abandoned walks shift the parity, w complete
+        # walks bring the end-of-travel step to 255 -> 0), then k abandoned walks bring the counter round
+        # to the stamps the last complete walk left behind, then a complete walk (seed C03-m9)
+        ops = []
+        for a in (0, 1):
+            for w in ((127, 128) if not big else (126, 127, 128, 129)):
+                for k in ((253, 254, 255) if not big else range(251, 258)):
+                    ops += ["new 0"] + ["put %s 76" % hexs(b"e%02d" % i) for i in range(7)]
+                    ops += ["cursor0", "next"] * a + ["walk"] * w + ["cursor0", "next"] * k + ["walk", "put 7a 76", "walk"]
+        sts.append(Stream("wrap-at-end-probes", ops, history=True))
         sts.append(Stream("random", self.random_history(700 if not big else 8000, 30 if not big else 300, 0,
                                                         ops=("put", "put", "rm", "walk", "abandon", "fullnext", "near"), quiet=False if not big else True), history=True))
         return sts
